@@ -105,6 +105,9 @@ func (bh *builtHamt) build(s *hShape, prefix []int, pathKeys []string, idx *int)
 				e.name = verifmodel.FindName(*idx, e.hash, (len(prefix)+1)*bh.lg)
 			} else {
 				e.name = tag + "n"
+				if tag == "a" {
+					e.name = "12" // an entry whose name parses as an integer (path segments may)
+				}
 				bh.tab.Set(e.name, e.hash)
 			}
 			*idx++
